@@ -1,5 +1,6 @@
 import NmlVerif.Proofs.ArrayMorphHist
 import NmlVerif.Proofs.ArrayMorphDoc
+import NmlVerif.Proofs.ArrayMorphAlias
 /-!
 # C18 — array morphologies survive their file format; their views agree with the arrays
 
@@ -12,7 +13,8 @@ Vocabulary (defined in `Proofs/ArrayMorph.lean`):
   parents terminates (a rank function exists): any tree shape, any vertex numbering.
 * `Valid a r`   — equal array lengths, mask all false (no floating vertices), `IsTree a.conn r`.
 * `EdgeL c u v` — `{u, v}` is an (undirected) edge of the array.
-* `topNames d`, `docArrs d` — the top-level group names the writer uses for a document / its array triples.
+* `topNames d`, `docArrs d` — the top-level group names the writer uses for a document / its array triples
+  (`xTopNames`, `xdocArrs` for documents that also hold members that are not array morphologies).
 -/
 namespace NmlVerif.ArrayMorph
 
@@ -124,65 +126,55 @@ theorem c18_convert_old_witness :
 `Obj` = arrays + `SegmentList.instantiated_segments`; `run (fresh a) ops` executes the calls `ops`
 (`segments[i]`, `len`, iteration, `segment_from_vertex_index`, `to_neuroml_morphology`, `to_root`, in any order)
 on one freshly built object; `specRun a ops` gives the ARRAY-DEFINED value of every call (computed from the
-arrays as they are at that moment, no cache). -/
+arrays as they are at that moment, no cache).  `to_root` ends with `self.segments.instantiated_segments.clear()`
+(`fixes/C18-toroot-invalidates-cache.patch`); `runOld` is the behaviour before that repair. -/
 
-/-- the full statement: whatever was called before, every call returns the array-defined value -/
-def c18_history_full : Prop :=
-  ∀ (a : Arr) (r : Nat), Valid a r → ∀ ops : List Op, (run (fresh a) ops).1 = (specRun a ops).1
+/-- **the full history statement**: whatever was called before on the object — view reads, conversions,
+    re-rootings, in any order, with any indices (negative, out of range: the same error), on ANY arrays (no
+    validity needed) — every call returns the array-defined value, and the arrays evolve as the array-level
+    functions say.  (The cache stays coherent with the arrays: `to_root`, the only call that changes the arrays,
+    empties it.) -/
+theorem c18_history_full (a : Arr) (ops : List Op) :
+    (run (fresh a) ops).1 = (specRun a ops).1 ∧ (run (fresh a) ops).2.arr = (specRun a ops).2 := by
+  have := run_coh ops (fresh a) (coh_fresh a)
+  exact ⟨this.1, this.2.1⟩
 
-/-- **every history that does not read the view after re-rooting a morphology whose view was read before.**
-    `pre` (no `segments[i]` / iteration: the cache is still empty, `to_root` allowed), then `mid` (anything but
-    `to_root`), then `post` (again no `segments[i]` / iteration; `to_root` allowed): every result equals the
-    array-defined one and the arrays evolve as the array-level functions say — for ANY arrays (no validity
-    needed), any indices (negative, out of range: the same error). In particular a conversion is never
-    influenced by what the view handed out before. -/
-theorem c18_history_partial (a : Arr) (pre mid post : List Op)
-    (hpre : ∀ op ∈ pre, op.usesCache = false) (hmid : ∀ op ∈ mid, op.isToRoot = false)
-    (hpost : ∀ op ∈ post, op.usesCache = false) :
-    (run (fresh a) (pre ++ mid ++ post)).1 = (specRun a (pre ++ mid ++ post)).1 ∧
-      (run (fresh a) (pre ++ mid ++ post)).2.arr = (specRun a (pre ++ mid ++ post)).2 := by
-  obtain ⟨p1, p2, p3⟩ := run_nocache pre (fresh a) hpre
-  have hc1 : Coh (run (fresh a) pre).2 := coh_of_empty p3
-  obtain ⟨m1, m2, m3, _⟩ := run_coh mid (run (fresh a) pre).2 hc1 hmid
-  obtain ⟨q1, q2, _⟩ := run_nocache post (run (run (fresh a) pre).2 mid).2 hpost
-  have ea : (fresh a).arr = a := rfl
-  rw [ea] at p1 p2
-  rw [p2] at m1 m2 m3
-  rw [m2] at q1 q2
-  simp only [run_append, specRun_append, List.append_assoc]
-  rw [m3]
-  exact ⟨by rw [p1, m1, q1], q2⟩
+/-- a morphology without floating vertices stays one through every history whose re-rootings name vertices
+    (the root moves; the number of vertices does not change) -/
+theorem c18_history_keeps_valid (a : Arr) (r : Nat) (h : Valid a r) (ops : List Op)
+    (hops : ∀ op ∈ ops, op.rootInRange a.conn.length = true) :
+    ∃ r', Valid (run (fresh a) ops).2.arr r' ∧ (run (fresh a) ops).2.arr.conn.length = a.conn.length := by
+  rw [(c18_history_full a ops).2]
+  exact specRun_valid ops a r h hops
 
-/-- after ANY history of view reads / conversions (no re-rooting) on a morphology without floating vertices,
-    `to_neuroml_morphology` still yields exactly the view's segments, `segments[i]` still is the segment of
-    vertex `i+1` joined to its parent vertex, `len` still is `n - 1` -/
-theorem c18_history_view_convert (a : Arr) (r : Nat) (h : Valid a r) (ops : List Op)
-    (hops : ∀ op ∈ ops, op.isToRoot = false) :
-    (step (run (fresh a) ops).2 .conv).1 = .conv (.ok (viewIter a)) ∧
-    (step (run (fresh a) ops).2 .iter).1 = .segs (viewIter a) ∧
-    (step (run (fresh a) ops).2 .len).1 = .len (a.conn.length - 1) ∧
-    ∀ (i : Nat) (hi : i < (viewIter a).length),
-      (step (run (fresh a) ops).2 (.get (i : Int))).1 = .seg (.ok (viewIter a)[i]) := by
-  obtain ⟨_, m2, _, m4⟩ := run_coh ops (fresh a) (coh_fresh a) hops
-  have ea : (fresh a).arr = a := rfl
-  rw [ea] at m2
+/-- after ANY history (re-rootings included): when the arrays the object then holds are a tree without floating
+    vertices, `to_neuroml_morphology` yields exactly the view's segments, iteration yields them, `len` is `n - 1`
+    and `segments[i]` is the array-defined segment — of the arrays as they are NOW -/
+theorem c18_history_view_convert (a : Arr) (ops : List Op) (r : Nat)
+    (h : Valid (run (fresh a) ops).2.arr r) :
+    (step (run (fresh a) ops).2 .conv).1 = .conv (.ok (viewIter (run (fresh a) ops).2.arr)) ∧
+    (step (run (fresh a) ops).2 .iter).1 = .segs (viewIter (run (fresh a) ops).2.arr) ∧
+    (step (run (fresh a) ops).2 .len).1 = .len ((run (fresh a) ops).2.arr.conn.length - 1) ∧
+    ∀ (i : Nat) (hi : i < (viewIter (run (fresh a) ops).2.arr).length),
+      (step (run (fresh a) ops).2 (.get (i : Int))).1 = .seg (.ok (viewIter (run (fresh a) ops).2.arr)[i]) := by
+  obtain ⟨_, _, m4⟩ := run_coh ops (fresh a) (coh_fresh a)
   refine ⟨?_, ?_, ?_, ?_⟩
   · show Res.conv (toNeuromlMorphology (run (fresh a) ops).2.arr) = _
-    rw [m2, c18_convert_eq_view a r h]
+    rw [c18_convert_eq_view _ r h]
   · obtain ⟨g1, _, _⟩ := iterObj_coh m4
     show Res.segs (iterObj (run (fresh a) ops).2).1 = _
-    rw [g1, m2]
+    rw [g1]
   · show Res.len (viewLen (run (fresh a) ops).2.arr) = _
-    rw [m2, h.viewLen]
+    rw [h.viewLen]
   · intro i hi
     obtain ⟨g1, _, _⟩ := getItem_coh m4 (i : Int)
     show Res.seg (getItem (run (fresh a) ops).2 (i : Int)).1 = _
-    rw [g1, m2, (c18_view_ids a r h i hi).1]
+    rw [g1, (c18_view_ids _ r h i hi).1]
 
-/-- `to_root` inside a history: it never looks at the cache, so after any calls whatsoever it re-roots the
-    arrays the object then holds exactly as `c18_toRoot` says -/
+/-- `to_root` inside a history: it never READS the cache, so after any calls whatsoever it re-roots the arrays
+    the object then holds exactly as `c18_toRoot` says — and leaves the object with an empty cache -/
 theorem c18_history_toRoot (o : Obj) (r j : Nat) (h : IsTree o.arr.conn r) (hj : j < o.arr.conn.length) :
-    ∃ c', step o (.toRoot (j : Int)) = (.unit (.ok ()), { o with arr := { o.arr with conn := c' } }) ∧
+    ∃ c', step o (.toRoot (j : Int)) = (.unit (.ok ()), { arr := { o.arr with conn := c' }, cache := [] }) ∧
       c'.length = o.arr.conn.length ∧ IsTree c' j ∧ ∀ u v, EdgeL c' u v ↔ EdgeL o.arr.conn u v := by
   obtain ⟨c', h1, h2, h3, h4⟩ := c18_toRoot o.arr r j h hj
   refine ⟨c', ?_, h2, h3, h4⟩
@@ -206,11 +198,15 @@ theorem c18_toRoot_back (a : Arr) (r j : Nat) (h : IsTree a.conn r) (hj : j < a.
 theorem c18_iter_fuel_enough (o : Obj) (extra : Nat) : iterFrom (iterFuel o + extra) o 0 = iterObj o :=
   iterObj_fuel_enough o extra
 
-/-- the full history statement fails on the code as it is: `to_root` does not invalidate the segment cache.
-    4-vertex chain, `to_root(3)`, `segments[0]`, `to_root(0)` (the arrays are back to the original, a tree rooted
-    at 0 without floating vertices), `segments[0]`: still vertex 1 joined to vertex 2 (its parent while the root
-    was 3) instead of vertex 0 -/
-theorem c18_history_witness : ¬ c18_history_full := by
+/-- the history statement for the code BEFORE `fixes/C18-toroot-invalidates-cache.patch` (`runOld`: `to_root`
+    keeps the segment cache) -/
+def c18_history_old_full : Prop :=
+  ∀ (a : Arr) (r : Nat), Valid a r → ∀ ops : List Op, (runOld (fresh a) ops).1 = (specRun a ops).1
+
+/-- … it failed (finding `C18:view-stale-after-toroot`, fixed): 4-vertex chain, `to_root(3)`, `segments[0]`,
+    `to_root(0)` (the arrays are back to the original, a tree rooted at 0 without floating vertices),
+    `segments[0]`: still vertex 1 joined to vertex 2 (its parent while the root was 3) instead of vertex 0 -/
+theorem c18_history_old_witness : ¬ c18_history_old_full := by
   intro hfull
   have hv : Valid ⟨[(0,0,0,1), (1,0,0,2), (2,0,0,3), (3,0,0,4)], [-1, 0, 1, 2], [false, false, false, false]⟩ 0 :=
     ⟨rfl, rfl, by decide, isTree_chain4⟩
@@ -218,74 +214,84 @@ theorem c18_history_witness : ¬ c18_history_full := by
   revert this
   decide
 
-/-- … the witness in detail: the arrays are the original ones again when the stale segment is returned -/
-theorem c18_history_witness_values :
+/-- … the witness in detail, before and after the repair: the arrays are the original ones again; the
+    pre-repair object returns the stale segment, the object as it is today the array-defined one -/
+theorem c18_history_old_witness_values :
     let a : Arr := ⟨[(0,0,0,1), (1,0,0,2), (2,0,0,3), (3,0,0,4)], [-1, 0, 1, 2], [false, false, false, false]⟩
-    let r := run (fresh a) [.toRoot 3, .get 0, .toRoot 0, .get 0]
-    r.2.arr = a ∧ r.1[3]? = some (.seg (.ok ⟨1, (1,0,0,2), (2,0,0,3), none⟩)) ∧
+    let old := runOld (fresh a) [.toRoot 3, .get 0, .toRoot 0, .get 0]
+    let new := run (fresh a) [.toRoot 3, .get 0, .toRoot 0, .get 0]
+    old.2.arr = a ∧ old.1[3]? = some (.seg (.ok ⟨1, (1,0,0,2), (2,0,0,3), none⟩)) ∧
+      new.2.arr = a ∧ new.1[3]? = some (.seg (.ok ⟨1, (1,0,0,2), (0,0,0,1), none⟩)) ∧
       viewGet a 0 = .ok ⟨1, (1,0,0,2), (0,0,0,1), none⟩ := by
   decide
 
-/-- the proposed repair (`to_root` also empties `instantiated_segments`): with it the FULL history statement
-    holds — every call of every history returns the array-defined value -/
-theorem c18_history_fixed_full (a : Arr) (ops : List Op) :
-    (runFixed (fresh a) ops).1 = (specRun a ops).1 ∧ (runFixed (fresh a) ops).2.arr = (specRun a ops).2 := by
-  have := runFixed_coh ops (fresh a) (coh_fresh a)
-  exact ⟨this.1, this.2.1⟩
+/-! ## the file format
 
-/-! ## the file format -/
+`load` is total on the files of the model (the loader recognises a morphology group by an ARRAY called `vertices`,
+`fixes/C18-loader-vertices-is-array.patch`; `loadOld` is the loader before that repair). -/
 
 /-- a single morphology written on its own and loaded back: the same three arrays, whatever they are
     (no validity needed) and whatever the morphology id -/
-theorem c18_load_write_single (m : Morph) : ∃ f, writeMorph m = .ok f ∧ load f = .ok [m.arr] := by
+theorem c18_load_write_single (m : Morph) : ∃ f, writeMorph m = .ok f ∧ load f = [m.arr] := by
   refine ⟨[(match m.id with | none => "Morphology" | some s => s, .morph m.arr)], ?_, ?_⟩
   · show addNode [] _ (.morph m.arr) = _
     rw [addNode_ok _ (by simp)]
     rfl
-  · rw [load_good _ (by intro e he; simp at he; subst he; trivial)]
-    simp [entryArrs]
+  · unfold load
+    rw [List.mergeSort_singleton]
+    rfl
 
 /-- the full statement for documents: every document round-trips (up to the order of the morphologies — the
     format stores no ids and is read back in group-name order) -/
 def c18_load_write_doc_full : Prop :=
-  ∀ d : Doc, ∃ f ms, writeDoc d = .ok f ∧ load f = .ok ms ∧ ms.Perm (docArrs d)
+  ∀ d : Doc, ∃ f, writeDoc d = .ok f ∧ (load f).Perm (docArrs d)
 
-/-- **documents with any mix of cells and stand-alone morphologies** (repaired writer) round-trip whenever the
-    top-level group names are pairwise distinct and no cell's morphology is called "vertices". The loaded list
-    is the written one in group-name order. -/
-theorem c18_load_write_doc_partial (d : Doc) (hn : (topNames d).Nodup)
-    (hv : ∀ c ∈ d.cells, c.morph.id ≠ some "vertices") :
-    ∃ f ms, writeDoc d = .ok f ∧ load f = .ok ms ∧ ms.Perm (docArrs d) ∧
-      ms = ((entries d).mergeSort nameLe).flatMap entryArrs := by
-  have hgood : ∀ e ∈ entries d, GoodEntry e := by
-    intro e he
-    unfold entries at he
-    rcases List.mem_append.mp he with he | he
-    · exact cellEntries_good d.cells 0 hv e he
-    · exact morphEntries_good d.morphs 0 e he
-  refine ⟨entries d, _, writeDoc_ok d hn, load_good _ hgood, ?_, rfl⟩
+/-- **documents with any mix of cells and stand-alone array morphologies** round-trip whenever the top-level
+    group names (cell ids and stand-alone morphology ids, after defaulting) are pairwise distinct — whatever the
+    morphologies inside the cells are called ("vertices" included). The loaded list is the written one in
+    group-name order. -/
+theorem c18_load_write_doc_partial (d : Doc) (hn : (topNames d).Nodup) :
+    ∃ f, writeDoc d = .ok f ∧ (load f).Perm (docArrs d) ∧
+      load f = ((entries d).mergeSort nameLe).flatMap entryArrs := by
+  refine ⟨entries d, writeDoc_ok d hn, ?_, load_entries _ (entries_single d)⟩
   rw [← entries_arrs d]
-  exact List.Perm.flatMap_right _ (List.mergeSort_perm _ _)
+  exact load_perm _ (entries_single d)
 
-/-- the full statement fails: a cell and a stand-alone morphology with the same id collide in the flat group
-    layout (`NodeError`), and a cell whose morphology is called "vertices" is mistaken for a morphology group -/
+/-- the full statement fails (open finding `C18:doc-cell-and-morphology-share-name`): a cell and a stand-alone
+    morphology with the same id collide in the flat group layout (`NodeError`) -/
 theorem c18_load_write_doc_witness : ¬ c18_load_write_doc_full := by
   intro h
-  obtain ⟨f, ms, h1, _, _⟩ := h ⟨[⟨some "x", ⟨some "m", ⟨[], [], []⟩⟩⟩], [⟨some "x", ⟨[], [], []⟩⟩]⟩
+  obtain ⟨f, h1, _⟩ := h ⟨[⟨some "x", ⟨some "m", ⟨[], [], []⟩⟩⟩], [⟨some "x", ⟨[], [], []⟩⟩]⟩
   have : writeDoc ⟨[⟨some "x", ⟨some "m", ⟨[], [], []⟩⟩⟩], [⟨some "x", ⟨[], [], []⟩⟩]⟩ = .error .nodeError := by
     decide
   rw [this] at h1
   cases h1
 
-theorem c18_load_write_doc_witness_vertices :
-    (writeDoc ⟨[⟨some "x", ⟨some "vertices", ⟨[], [], []⟩⟩⟩], []⟩).bind load = .error .noSuchNode := by
-  have hw : writeDoc ⟨[⟨some "x", ⟨some "vertices", ⟨[], [], []⟩⟩⟩], []⟩ =
-      .ok [("x", .cell [("vertices", ⟨[], [], []⟩)])] := by decide
-  rw [hw]
-  show load _ = _
-  unfold load
-  rw [List.mergeSort_singleton]
+/-- an id-less morphology is named `Morphology<position>`: that collides with an explicit id of the same shape
+    (`NodeError`) — one more way the full document statement fails (open finding `C18:doc-default-id-collides`) -/
+theorem c18_load_write_doc_witness_default_id :
+    writeDoc ⟨[], [⟨some "Morphology1", ⟨[], [], []⟩⟩, ⟨none, ⟨[], [], []⟩⟩]⟩ = .error .nodeError := by
   decide
+
+/-- a cell whose morphology is called "vertices" (finding `C18:doc-cell-morphology-named-vertices`, fixed): the
+    loader before the repair (`hasattr(node, "vertices")`) took the CELL group for a morphology group
+    (`NoSuchNodeError`); today's loader returns the written arrays -/
+theorem c18_load_old_witness_vertices :
+    let d : Doc := ⟨[⟨some "x", ⟨some "vertices", ⟨[(1, 2, 3, 4)], [-1], [false]⟩⟩⟩], []⟩
+    (writeDoc d).bind loadOld = .error .noSuchNode ∧
+      (writeDoc d).map load = .ok [⟨[(1, 2, 3, 4)], [-1], [false]⟩] := by
+  have hw : writeDoc ⟨[⟨some "x", ⟨some "vertices", ⟨[(1, 2, 3, 4)], [-1], [false]⟩⟩⟩], []⟩ =
+      .ok [("x", .cell [("vertices", ⟨[(1, 2, 3, 4)], [-1], [false]⟩)])] := by decide
+  simp only [hw]
+  refine ⟨?_, ?_⟩
+  · show loadOld _ = _
+    unfold loadOld
+    rw [List.mergeSort_singleton]
+    decide
+  · show Except.ok (load _) = _
+    unfold load
+    rw [List.mergeSort_singleton]
+    simp [nodeMorphs]
 
 /-- the pre-repair writer (`cell_id=cell.id` in the stand-alone loop) cannot write ANY document that holds a
     stand-alone morphology: `UnboundLocalError` without cells, `NodeError` with cells -/
@@ -310,48 +316,92 @@ theorem c18_writeDocOld_fails (d : Doc) (hm : d.morphs ≠ []) : ∀ f, writeDoc
       simp only [writeMorphsOld, writeSingleCell, addNode_dup _ hmem] at hf
       cases hf
 
-/-! ## documents that also hold cells without an embedded morphology / plain morphologies -/
+/-! ## documents that also hold cells without an embedded morphology / plain morphologies
 
-/-- the full statement for ANY document: the array morphologies it holds (`d.arrayDoc`) survive -/
+What the property demands: "identical vertex, connectivity and physical-mask arrays for every morphology" speaks
+about the morphologies that HAVE such arrays — the `ArrayMorphology` objects of the document (`xdocArrs d`: those
+embedded in cells, then the stand-alone ones).  A cell without an embedded morphology (it refers to a stand-alone
+one) and a plain `neuroml.Morphology` have no arrays and the format has no place for them: the property demands
+nothing for them except that their presence does not keep the array morphologies next to them from surviving.
+The writer skips them (`fixes/C18-writer-skips-non-array.patch`); `writeXDocOld` is the writer before that. -/
+
+/-- the full statement for ANY document: the array morphologies it holds survive -/
 def c18_load_write_xdoc_full : Prop :=
-  ∀ d : XDoc, ∃ f ms, writeXDoc d = .ok f ∧ load f = .ok ms ∧ ms.Perm (docArrs d.arrayDoc)
+  ∀ d : XDoc, ∃ f, writeXDoc d = .ok f ∧ (load f).Perm (xdocArrs d)
 
-/-- when every cell embeds an `ArrayMorphology` and every stand-alone morphology is one, the writer behaves as
-    on a `Doc`: round trip under the name hypotheses of `c18_load_write_doc_partial` -/
-theorem c18_load_write_xdoc_partial (d : XDoc) (ha : AllArray d) (hn : (topNames d.arrayDoc).Nodup)
-    (hv : ∀ c ∈ d.arrayDoc.cells, c.morph.id ≠ some "vertices") :
-    ∃ f ms, writeXDoc d = .ok f ∧ load f = .ok ms ∧ ms.Perm (docArrs d.arrayDoc) := by
-  obtain ⟨f, ms, h1, h2, h3, _⟩ := c18_load_write_doc_partial d.arrayDoc hn hv
-  exact ⟨f, ms, by rw [writeXDoc_all d ha, h1], h2, h3⟩
+/-- **documents holding any mix of cells with / without an array morphology and stand-alone plain / array
+    morphologies**: when the group names of the members that ARE array morphologies (`xTopNames`: cell ids and
+    stand-alone morphology ids, defaulted by their position among ALL members of their list) are pairwise
+    distinct, the document is written, the file holds exactly one root group per array morphology
+    (`xEntries d`; nothing at all for the skipped members, whose ids — colliding or not — play no role), and
+    loading gives back exactly the array triples of the document: a permutation of `xdocArrs d`, namely the
+    groups in name order; in particular as many morphologies as the document has array morphologies. -/
+theorem c18_load_write_xdoc_partial (d : XDoc) (hn : (xTopNames d).Nodup) :
+    ∃ f, writeXDoc d = .ok f ∧ f = xEntries d ∧ f.length = (xdocArrs d).length ∧
+      (load f).Perm (xdocArrs d) ∧ load f = ((xEntries d).mergeSort nameLe).flatMap entryArrs := by
+  refine ⟨xEntries d, writeXDoc_ok d hn, rfl, xEntries_length d, ?_, load_entries _ (xEntries_single d)⟩
+  rw [← xEntries_arrs d]
+  exact load_perm _ (xEntries_single d)
 
-/-- EVERY document with a cell that has no embedded morphology, or a plain one, is unwritable (`AttributeError`),
-    whatever else it holds -/
-theorem c18_load_write_xdoc_nonarray (d : XDoc) (h : ∃ c ∈ d.cells, ∀ m, c.morph ≠ .array m) :
-    ∀ f, writeXDoc d ≠ .ok f := by
-  intro f hf
-  unfold writeXDoc at hf
-  cases hc : writeXCells 0 d.cells [] with
-  | error e => rw [hc] at hf; cases hf
-  | ok f1 => exact writeXCells_nonarray d.cells 0 [] h f1 hc
+/-- the `XDoc` statements extend the `Doc` ones: on a document made of array morphologies only the writer is
+    `writeDoc`, and the triples of any document are those of its array part -/
+theorem c18_xdoc_extends_doc (d : Doc) (x : XDoc) :
+    writeXDoc d.toX = writeDoc d ∧ xdocArrs x = docArrs x.arrayDoc :=
+  ⟨writeXDoc_toX d, xdocArrs_arrayDoc x⟩
 
-/-- the full statement fails: a cell that refers to a stand-alone array morphology instead of embedding one -/
+/-- the full statement still fails, for the reason `c18_load_write_doc_full` fails (name collisions between
+    members that are written); non-array members are no longer a reason -/
 theorem c18_load_write_xdoc_witness : ¬ c18_load_write_xdoc_full := by
   intro h
-  obtain ⟨f, _, h1, _, _⟩ := h ⟨[⟨some "c", .none⟩], [.array ⟨some "m", ⟨[], [], []⟩⟩]⟩
-  exact c18_load_write_xdoc_nonarray _ ⟨⟨some "c", .none⟩, by simp, by intro m hm; cases hm⟩ f h1
+  obtain ⟨f, h1, _⟩ := h ⟨[⟨some "x", .array ⟨some "m", ⟨[], [], []⟩⟩⟩, ⟨some "c", .none⟩],
+    [.plain, .array ⟨some "x", ⟨[], [], []⟩⟩]⟩
+  have : writeXDoc ⟨[⟨some "x", .array ⟨some "m", ⟨[], [], []⟩⟩⟩, ⟨some "c", .none⟩],
+      [.plain, .array ⟨some "x", ⟨[], [], []⟩⟩]⟩ = .error .nodeError := by decide
+  rw [this] at h1
+  cases h1
 
-/-- with the proposed loader repair (a morphology group is recognised by an ARRAY called `vertices`) the
-    hypothesis about cell morphologies called "vertices" is not needed any more -/
-theorem c18_load_write_doc_fixedLoader (d : Doc) (hn : (topNames d).Nodup) :
-    ∃ f, writeDoc d = .ok f ∧ (loadFixed f).Perm (docArrs d) := by
-  refine ⟨entries d, writeDoc_ok d hn, ?_⟩
-  rw [loadFixed_entries_perm _ (entries_single d), ← entries_arrs d]
-  exact List.Perm.flatMap_right _ (List.mergeSort_perm _ _)
+/-- before `fixes/C18-writer-skips-non-array.patch` (findings `C18:doc-cell-without-morphology`,
+    `C18:doc-plain-morphology`, fixed): EVERY document with a cell that has no embedded morphology, or a plain one,
+    was unwritable (`AttributeError`), whatever else it held -/
+theorem c18_writeXDocOld_nonarray (d : XDoc) (h : ∃ c ∈ d.cells, ∀ m, c.morph ≠ .array m) :
+    ∀ f, writeXDocOld d ≠ .ok f := by
+  intro f hf
+  unfold writeXDocOld at hf
+  cases hc : writeXCellsOld 0 d.cells [] with
+  | error e => rw [hc] at hf; cases hf
+  | ok f1 => exact writeXCellsOld_nonarray d.cells 0 [] h f1 hc
 
-/-- an id-less morphology is named `Morphology<position>`: that collides with an explicit id of the same shape
-    (`NodeError`) — one more way the full document statement fails -/
-theorem c18_load_write_doc_witness_default_id :
-    writeDoc ⟨[], [⟨some "Morphology1", ⟨[], [], []⟩⟩, ⟨none, ⟨[], [], []⟩⟩]⟩ = .error .nodeError := by
+/-! ## documents in which one `ArrayMorphology` object is used by several members
+
+`writeADoc` is the writer loop with its id assignments ON THE OBJECTS (`morphology.id = "Morphology" + str(default_id)`):
+an object that is the morphology of two cells, or of a cell and also a member of `document.morphology`, is written at
+every occurrence, from the second one on under the name its first occurrence was given. -/
+
+/-- the writer on a document with shared objects = the writer on the document in which every occurrence carries
+    the id the object has when the writer reaches it (`resolve d`) -/
+theorem c18_writeADoc_resolve (d : ADoc) : writeADoc d = writeXDoc (resolve d) ∧ xdocArrs (resolve d) = adocArrs d :=
+  ⟨writeADoc_resolve d, resolve_arrs d⟩
+
+/-- **round trip with shared objects**: when the group names the writer ends up using (`xTopNames (resolve d)`) are
+    pairwise distinct, the document is written and loads back to exactly one array triple per OCCURRENCE of an
+    array morphology (an object used by two cells is in the document twice, is stored twice and loads twice) -/
+theorem c18_load_write_adoc_partial (d : ADoc) (hn : (xTopNames (resolve d)).Nodup) :
+    ∃ f, writeADoc d = .ok f ∧ (load f).Perm (adocArrs d) ∧ f.length = (adocArrs d).length := by
+  obtain ⟨f, h1, _, h3, h4, _⟩ := c18_load_write_xdoc_partial (resolve d) hn
+  refine ⟨f, by rw [writeADoc_resolve, h1], ?_, ?_⟩
+  · rw [← resolve_arrs d]; exact h4
+  · rw [← resolve_arrs d]; exact h3
+
+/-- sharing changes names: the object of cell 0 (id-less, named `Morphology0` by the cell loop) listed again as the
+    SECOND stand-alone morphology keeps that name and collides with the default name of the id-less first one
+    (`NodeError`) — the same document with a copy of the object instead is written (`Morphology1`).  One more
+    instance of the open finding `C18:doc-default-id-collides`. -/
+theorem c18_load_write_adoc_witness :
+    let m : Morph := ⟨none, ⟨[(1, 2, 3, 4)], [-1], [false]⟩⟩
+    let n : Morph := ⟨none, ⟨[], [], []⟩⟩
+    writeADoc ⟨[⟨some "c", .array ⟨0, m⟩⟩], [.array ⟨1, n⟩, .array ⟨0, m⟩]⟩ = .error .nodeError ∧
+      (writeADoc ⟨[⟨some "c", .array ⟨0, m⟩⟩], [.array ⟨1, n⟩, .array ⟨2, m⟩]⟩).map (·.map (·.1)) =
+        .ok ["c", "Morphology0", "Morphology1"] := by
   decide
 
 /-! ## the hypotheses are satisfiable (non-vacuity) -/
@@ -373,33 +423,48 @@ example :
 /-- … and re-rooting it at vertex 4 really computes the re-rooted array -/
 example : toRoot ⟨[], [-1, 3, 0, 0, 1], []⟩ 4 = .ok ⟨[], [3, 4, 0, 1, -1], []⟩ := by decide
 
-/-- a document with two cells (one id defaulted) and two stand-alone morphologies meets the name hypotheses -/
+/-- a document with two cells (one id defaulted, one whose morphology is called "vertices") and two stand-alone
+    morphologies meets the name hypothesis -/
 example :
-    let d : Doc := ⟨[⟨some "b", ⟨none, ⟨[], [-1], []⟩⟩⟩, ⟨none, ⟨some "m", ⟨[], [], []⟩⟩⟩],
+    let d : Doc := ⟨[⟨some "b", ⟨some "vertices", ⟨[], [-1], []⟩⟩⟩, ⟨none, ⟨some "m", ⟨[], [], []⟩⟩⟩],
                     [⟨some "a", ⟨[], [-1, 0], []⟩⟩, ⟨none, ⟨[], [], [true]⟩⟩]⟩
-    (topNames d).Nodup ∧ (∀ c ∈ d.cells, c.morph.id ≠ some "vertices") ∧ d.morphs ≠ [] := by
+    (topNames d).Nodup ∧ d.morphs ≠ [] := by
   decide
 
-/-- a history that meets the hypotheses of `c18_history_partial` (re-root first, then read the view in many ways,
-    then re-root again and convert): 10 calls, the cache ends up with 5 bindings (one under a negative key), and
-    the results are the array-defined ones -/
+/-- a history with re-rootings between view reads (the pattern that was the finding): 11 calls, every result is the
+    array-defined one, the arrays end up as they started, and the hypotheses of `c18_history_keeps_valid` hold -/
 example :
     let a : Arr := ⟨[(0,0,0,8), (8,1,0,7), (16,2,0,6), (24,3,0,5), (32,4,0,4)], [-1, 3, 0, 0, 1],
                     [false, false, false, false, false]⟩
-    let pre : List Op := [.toRoot 4]
-    let mid : List Op := [.get 1, .iter, .conv, .get 1, .get (-2), .sfv 3]
-    let post : List Op := [.toRoot 0, .conv, .len]
-    (∀ op ∈ pre, op.usesCache = false) ∧ (∀ op ∈ mid, op.isToRoot = false) ∧ (∀ op ∈ post, op.usesCache = false) ∧
-      (run (fresh a) (pre ++ mid ++ post)).1 = (specRun a (pre ++ mid ++ post)).1 ∧
-      (run (fresh a) (pre ++ mid ++ post)).2.cache.length = 5 ∧
-      (run (fresh a) (pre ++ mid ++ post)).2.arr = a := by
+    let ops : List Op := [.get 1, .toRoot 4, .get 1, .iter, .conv, .get (-2), .sfv 3, .toRoot 0, .get 0, .conv, .len]
+    (∀ op ∈ ops, op.rootInRange a.conn.length = true) ∧
+      (run (fresh a) ops).1 = (specRun a ops).1 ∧
+      (run (fresh a) ops).2.cache.length = 1 ∧
+      (run (fresh a) ops).2.arr = a ∧
+      (run (fresh a) ops).1 ≠ (runOld (fresh a) ops).1 := by
   decide
 
-/-- an `XDoc` meeting the hypotheses of `c18_load_write_xdoc_partial`; one violating `AllArray` -/
+/-- an `XDoc` with a cell without morphology (its id even equals a stand-alone morphology's id), a cell with a
+    plain morphology, a plain stand-alone morphology and three array morphologies, two of them id-less: it meets the
+    hypothesis of `c18_load_write_xdoc_partial`; the default names are made of the ORIGINAL positions; the old
+    writer could not write it -/
 example :
-    let d : XDoc := ⟨[⟨some "b", .array ⟨none, ⟨[], [-1], []⟩⟩⟩], [.array ⟨some "a", ⟨[], [-1, 0], []⟩⟩]⟩
-    (topNames d.arrayDoc).Nodup ∧ (∀ c ∈ d.arrayDoc.cells, c.morph.id ≠ some "vertices") ∧
-      writeXDoc d = writeDoc d.arrayDoc := by
+    let d : XDoc := ⟨[⟨some "m", .none⟩, ⟨none, .array ⟨none, ⟨[], [-1], []⟩⟩⟩, ⟨some "p", .plain⟩],
+                     [.plain, .array ⟨none, ⟨[], [-1, 0], []⟩⟩, .array ⟨some "m", ⟨[], [], []⟩⟩]⟩
+    (xTopNames d).Nodup ∧ xTopNames d = ["Cell1", "Morphology1", "m"] ∧
+      writeXDoc d = .ok [("Cell1", .cell [("Morphology1", ⟨[], [-1], []⟩)]), ("Morphology1", .morph ⟨[], [-1, 0], []⟩),
+                         ("m", .morph ⟨[], [], []⟩)] ∧
+      writeXDocOld d = .error .attributeError := by
+  decide
+
+/-- one object shared by two cells and listed stand-alone as well, next to another object: meets the hypothesis of
+    `c18_load_write_adoc_partial`; three groups hold the shared arrays -/
+example :
+    let m : Morph := ⟨none, ⟨[(1, 2, 3, 4)], [-1], [false]⟩⟩
+    let d : ADoc := ⟨[⟨none, .array ⟨0, m⟩⟩, ⟨none, .none⟩, ⟨none, .array ⟨0, m⟩⟩],
+                     [.array ⟨0, m⟩, .array ⟨1, ⟨none, ⟨[], [], []⟩⟩⟩]⟩
+    (xTopNames (resolve d)).Nodup ∧ xTopNames (resolve d) = ["Cell0", "Cell2", "Morphology0", "Morphology1"] ∧
+      (adocArrs d).length = 4 := by
   decide
 
 example : AllArray ⟨[⟨some "b", .array ⟨none, ⟨[], [-1], []⟩⟩⟩], [.array ⟨some "a", ⟨[], [-1, 0], []⟩⟩]⟩ :=
